@@ -345,7 +345,9 @@ ReadClauses(cur, e) ==
       frag == fmt \in Formats /\ InFrag(fmt, cur.m0) /\ cur.fmt = fmt
       ok  == e.out = "value" /\ e.anom = <<>>
   IN
-  << <<p \o ".read.total", frag => e.out = "value">> >>
+  << <<p \o ".read.total", frag => e.out = "value">>,
+     \* what comes back is a model at all (the preserve clauses below presuppose it)
+     <<p \o ".read.wellformed", frag /\ ok => WellFormedTree(b)>> >>
   \o ReadCommon(e)
   \o Guarded(fmt = "json" /\ frag /\ cur.pj.out # "none",
        << <<"C05.parsejson", ok /\ cur.pj.out = "value" /\ cur.pj.anom = <<>> /\ cur.pj.post = b>> >>)
@@ -365,7 +367,8 @@ ReadRefClauses(cur, e) ==
   IF e.args.broken # "none"
   THEN << <<p \o ".rejects." \o e.args.broken, e.out # "value">> >>
   ELSE
-  << <<p \o ".accepts", e.out = "value">> >>
+  << <<p \o ".accepts", e.out = "value">>,
+     <<p \o ".wellformed", ok => WellFormedTree(b)>> >>
   \o ReadCommon(e)
   \o Guarded(ok /\ WellFormedTree(b),
        IF fmt = "uvl"
